@@ -256,6 +256,7 @@ const JSON_POOL: &[&str] = &[
     "0", "1", "2", "3", "\"s\"", "null", "false", "true", "[1,2]", "{\"a\":1,\"b\":[2]}", "1.5",
     "\"x y\"", "{\"b\":2,\"a\":1}", "[]", "{}", "\"\\u00e9\\n\"", "[[0],{\"a\":null}]", "-7",
     "\"\"", "100000000000000000000",
+    "{\"z\":{\"y\":1,\"x\":[{\"d\":1,\"c\":2}]},\"a\":{\"k\":null}}",
 ];
 
 fn render_json(rng: &mut Rng, vals: &[&str]) -> Vec<u8> {
@@ -556,16 +557,23 @@ pub fn gen_case(rng: &mut Rng) -> Case {
         }
     };
     need("x", NamedKind::Arg, "val x".into());
-    need("y", NamedKind::ArgJson, "{\"k\": [1, 2]}".into());
+    let yval = if rng.chance(1, 10) { "{\"k\": [1, 2}" } else { "{\"k\": [1, 2]}" };
+    need("y", NamedKind::ArgJson, yval.into());
     if filter.contains("$d") {
         files.push(FileSpec::file("w/data.json", "1 [2] {\"a\":3}\n", 0o644));
-        inv.named
-            .push((NamedKind::SlurpFile, "d".into(), "data.json".into()));
+        files.push(FileSpec::file("w/broken.json", "1 [2 {\"a\"\n", 0o644));
+        let name = match rng.usize(10) {
+            0 => "no-such-data.json",
+            1 => "broken.json",
+            _ => "data.json",
+        };
+        inv.named.push((NamedKind::SlurpFile, "d".into(), name.into()));
     }
     if filter.contains("$r") {
         files.push(FileSpec::file("w/raw.txt", "line1\nline2 \u{e9}\n", 0o644));
-        inv.named
-            .push((NamedKind::RawFile, "r".into(), "raw.txt".into()));
+        // one time in eight the named file does not exist: an I/O error, status 2
+        let name = if rng.chance(1, 8) { "no-such-raw.txt" } else { "raw.txt" };
+        inv.named.push((NamedKind::RawFile, "r".into(), name.into()));
     }
     if filter.contains("$ARGS") || rng.chance(1, 10) {
         if rng.chance(2, 3) {
